@@ -120,9 +120,20 @@ class Interpolator:
             self.rocd = df.rocd.values
             self.fuel_flow = df.fuel_flow.values
 
+    FL_ROUND_OFF_TOL: ClassVar[float] = 1.0e-9
+    """Relative tolerance for flight levels at the edges of the table."""
+
     def __call__(self, fl: float, mass: float) -> Performance:
         """Perform bilinear interpolation to get performance values at given
         flight level and aircraft mass."""
+
+        # Flight levels are calculated from altitudes in meters, so a state at
+        # the lowest or highest flight level in the table can end up outside
+        # the table by floating point round-off. Those states are evaluated at
+        # the edge of the table; anything further out is still an error.
+        for fl_edge in (self.xs[0][0], self.xs[0][-1]):
+            if abs(fl - fl_edge) <= self.FL_ROUND_OFF_TOL * max(1.0, abs(fl_edge)):
+                fl = float(fl_edge)
 
         if self.n_masses > 1:
             x = (fl, mass)
